@@ -1,4 +1,4 @@
-import GlmVerif.Sem.Field
+import GlmVerif.Sem.Family
 import GlmVerif.Spec.C02
 import GlmVerif.Gen.C02
 /-!
@@ -14,41 +14,146 @@ every field of characteristic zero, for every value of every entry.
 namespace Glm.Props.C02
 open Glm Glm.Spec.C02 Glm.Gen.C02
 
-theorem mul_ok : (fam "mul").ok lookup = true := by decide +kernel
-theorem asgmul_m_ok : (fam "asgmul_m").ok lookup = true := by decide +kernel
-theorem mulmv_ok : (fam "mulmv").ok lookup = true := by decide +kernel
-theorem mulvm_ok : (fam "mulvm").ok lookup = true := by decide +kernel
-theorem transpose_ok : (fam "transpose").ok lookup = true := by decide +kernel
-theorem outer_ok : (fam "outer").ok lookup = true := by decide +kernel
-theorem compmult_ok : (fam "compmult").ok lookup = true := by decide +kernel
-theorem addmm_ok : (fam "addmm").ok lookup = true := by decide +kernel
-theorem submm_ok : (fam "submm").ok lookup = true := by decide +kernel
-theorem addms_ok : (fam "addms").ok lookup = true := by decide +kernel
-theorem addsm_ok : (fam "addsm").ok lookup = true := by decide +kernel
-theorem subms_ok : (fam "subms").ok lookup = true := by decide +kernel
-theorem subsm_ok : (fam "subsm").ok lookup = true := by decide +kernel
-theorem mulms_ok : (fam "mulms").ok lookup = true := by decide +kernel
-theorem mulsm_ok : (fam "mulsm").ok lookup = true := by decide +kernel
-theorem divms_ok : (fam "divms").ok lookup = true := by decide +kernel
-theorem divsm_ok : (fam "divsm").ok lookup = true := by decide +kernel
-theorem negm_ok : (fam "negm").ok lookup = true := by decide +kernel
-theorem posm_ok : (fam "posm").ok lookup = true := by decide +kernel
-theorem preinc_ok : (fam "preinc").ok lookup = true := by decide +kernel
-theorem predec_ok : (fam "predec").ok lookup = true := by decide +kernel
-theorem postinc_ok : (fam "postinc").ok lookup = true := by decide +kernel
-theorem postdec_ok : (fam "postdec").ok lookup = true := by decide +kernel
-theorem asgadd_m_ok : (fam "asgadd_m").ok lookup = true := by decide +kernel
-theorem asgsub_m_ok : (fam "asgsub_m").ok lookup = true := by decide +kernel
-theorem asgadd_s_ok : (fam "asgadd_s").ok lookup = true := by decide +kernel
-theorem asgsub_s_ok : (fam "asgsub_s").ok lookup = true := by decide +kernel
-theorem asgmul_s_ok : (fam "asgmul_s").ok lookup = true := by decide +kernel
-theorem asgdiv_s_ok : (fam "asgdiv_s").ok lookup = true := by decide +kernel
-theorem asg_m_ok : (fam "asg_m").ok lookup = true := by decide +kernel
-theorem row_get_ok : (fam "row_get").ok lookup = true := by decide +kernel
-theorem row_set_ok : (fam "row_set").ok lookup = true := by decide +kernel
-theorem col_get_ok : (fam "col_get").ok lookup = true := by decide +kernel
-theorem col_set_ok : (fam "col_set").ok lookup = true := by decide +kernel
-theorem ctor_diag_ok : (fam "ctor_diag").ok lookup = true := by decide +kernel
-theorem conv_ok : (fam "conv").ok lookup = true := by decide +kernel
+theorem mul_ok : f_mul.ok lookup = true := by decide +kernel
+theorem asgmul_m_ok : f_asgmul_m.ok lookup = true := by decide +kernel
+theorem mulmv_ok : f_mulmv.ok lookup = true := by decide +kernel
+theorem mulvm_ok : f_mulvm.ok lookup = true := by decide +kernel
+theorem transpose_ok : f_transpose.ok lookup = true := by decide +kernel
+theorem outer_ok : f_outer.ok lookup = true := by decide +kernel
+theorem compmult_ok : f_compmult.ok lookup = true := by decide +kernel
+theorem addmm_ok : f_addmm.ok lookup = true := by decide +kernel
+theorem submm_ok : f_submm.ok lookup = true := by decide +kernel
+theorem addms_ok : f_addms.ok lookup = true := by decide +kernel
+theorem addsm_ok : f_addsm.ok lookup = true := by decide +kernel
+theorem subms_ok : f_subms.ok lookup = true := by decide +kernel
+theorem subsm_ok : f_subsm.ok lookup = true := by decide +kernel
+theorem mulms_ok : f_mulms.ok lookup = true := by decide +kernel
+theorem mulsm_ok : f_mulsm.ok lookup = true := by decide +kernel
+theorem divms_ok : f_divms.ok lookup = true := by decide +kernel
+theorem divsm_ok : f_divsm.ok lookup = true := by decide +kernel
+theorem negm_ok : f_negm.ok lookup = true := by decide +kernel
+theorem posm_ok : f_posm.ok lookup = true := by decide +kernel
+theorem preinc_ok : f_preinc.ok lookup = true := by decide +kernel
+theorem predec_ok : f_predec.ok lookup = true := by decide +kernel
+theorem postinc_ok : f_postinc.ok lookup = true := by decide +kernel
+theorem postdec_ok : f_postdec.ok lookup = true := by decide +kernel
+theorem asgadd_m_ok : f_asgadd_m.ok lookup = true := by decide +kernel
+theorem asgsub_m_ok : f_asgsub_m.ok lookup = true := by decide +kernel
+theorem asgadd_s_ok : f_asgadd_s.ok lookup = true := by decide +kernel
+theorem asgsub_s_ok : f_asgsub_s.ok lookup = true := by decide +kernel
+theorem asgmul_s_ok : f_asgmul_s.ok lookup = true := by decide +kernel
+theorem asgdiv_s_ok : f_asgdiv_s.ok lookup = true := by decide +kernel
+theorem asg_m_ok : f_asg_m.ok lookup = true := by decide +kernel
+theorem row_get_ok : f_row_get.ok lookup = true := by decide +kernel
+theorem row_set_ok : f_row_set.ok lookup = true := by decide +kernel
+theorem col_get_ok : f_col_get.ok lookup = true := by decide +kernel
+theorem col_set_ok : f_col_set.ok lookup = true := by decide +kernel
+theorem ctor_diag_ok : f_ctor_diag.ok lookup = true := by decide +kernel
+theorem conv_ok : f_conv.ok lookup = true := by decide +kernel
+
+/-- every family table of C02 holds for the model generated from the current /repo -/
+theorem all_ok : ∀ f ∈ families, f.ok lookup = true := by
+  simp only [families, List.mem_cons, List.not_mem_nil, or_false, forall_eq_or_imp, forall_eq]
+  exact ⟨mul_ok, asgmul_m_ok, mulmv_ok, mulvm_ok, transpose_ok, outer_ok, compmult_ok, addmm_ok, submm_ok, addms_ok, addsm_ok, subms_ok, subsm_ok, mulms_ok, mulsm_ok, divms_ok, divsm_ok, negm_ok, posm_ok, preinc_ok, predec_ok, postinc_ok, postdec_ok, asgadd_m_ok, asgsub_m_ok, asgadd_s_ok, asgsub_s_ok, asgmul_s_ok, asgdiv_s_ok, asg_m_ok, row_get_ok, row_set_ok, col_get_ok, col_set_ok, ctor_diag_ok, conv_ok⟩
+
+/-! ## The statements in mathematical form
+
+`A k r := env (k*R + r)` is entry (column k, row r) of the left operand, `B c k := env (C*R + c*C + k)`
+of the right one (layout of `trace/units/common.hpp`).  `R'` is any commutative ring: ℤ, ℚ, ℝ, and
+`BitVec w` / `ZMod (2^w)`, i.e. C++ unsigned and wrap-around signed machine arithmetic. -/
+
+variable {R' : Type} [CommRing R']
+
+/-- **matrix * matrix, all 27 shape combinations, every entry, every value**:
+`(A*B)[c][r] = Σ_k A[k][r] * B[c][k]`. -/
+theorem matmul_correct (C R C2 : Nat) (hs : [C, R, C2] ∈ shapes3) (c r : Nat) (hc : c < C2) (hr : r < R)
+    (env : Nat → R') :
+    ((lookup "mul" [C, R, C2]).out (c * R + r)).eval (ringOps R') env
+      = ((List.range C).map fun k => env (k * R + r) * env (C * R + c * C + k)).sum := by
+  have hj : c * R + r < f_mul.nOut [C, R, C2] := by
+    show c * R + r < C2 * R
+    calc c * R + r < c * R + R := by omega
+      _ = (c + 1) * R := by ring
+      _ ≤ C2 * R := Nat.mul_le_mul_right R hc
+  have := Family.poly_sound (R := R') ringOps_ringLike mul_ok rfl (ks := [C, R, C2]) hs hj env
+  rw [show f_mul.name = "mul" from rfl] at this
+  rw [this]
+  show (mul C R C2 (c * R + r)).eval (ringOps R') env = _
+  have h1 : (c * R + r) % R = r := by rw [Nat.mul_comm, Nat.mul_add_mod]; exact Nat.mod_eq_of_lt hr
+  have h2 : (c * R + r) / R = c := by
+    rw [Nat.mul_comm, Nat.mul_add_div (by omega), Nat.div_eq_of_lt hr]; rfl
+  simp only [mul, sumE_eval, List.map_map, h1, h2]
+  rfl
+
+/-- **matrix * vector**: `(M*v)[r] = Σ_c M[c][r] * v[c]`. -/
+theorem matvec_correct (C R : Nat) (hs : [C, R] ∈ shapes) (r : Nat) (hr : r < R) (env : Nat → R') :
+    ((lookup "mulmv" [C, R]).out r).eval (ringOps R') env
+      = ((List.range C).map fun c => env (c * R + r) * env (C * R + c)).sum := by
+  have := Family.poly_sound (R := R') ringOps_ringLike mulmv_ok rfl (ks := [C, R]) hs (j := r) hr env
+  rw [show f_mulmv.name = "mulmv" from rfl] at this
+  rw [this]
+  show (mulmv C R r).eval (ringOps R') env = _
+  simp only [mulmv, sumE_eval, List.map_map]
+  rfl
+
+/-- **vector * matrix**: `(v*M)[c] = Σ_r v[r] * M[c][r]`. -/
+theorem vecmat_correct (C R : Nat) (hs : [C, R] ∈ shapes) (c : Nat) (hc : c < C) (env : Nat → R') :
+    ((lookup "mulvm" [C, R]).out c).eval (ringOps R') env
+      = ((List.range R).map fun r => env r * env (R + c * R + r)).sum := by
+  have := Family.poly_sound (R := R') ringOps_ringLike mulvm_ok rfl (ks := [C, R]) hs (j := c) hc env
+  rw [show f_mulvm.name = "mulvm" from rfl] at this
+  rw [this]
+  show (mulvm C R c).eval (ringOps R') env = _
+  simp only [mulvm, sumE_eval, List.map_map]
+  rfl
+
+/-- **shape conversion** `mat<C,R>(mat<C2,R2>)`, all 81 pairs, in *every* semantics (float, integer, …):
+the overlapping block is copied, the rest is the identity. -/
+theorem conv_correct {α : Type} (o : Ops α) (C R C2 R2 : Nat) (hs : [C, R, C2, R2] ∈ shapes4)
+    (c r : Nat) (hc : c < C) (hr : r < R) (env : Nat → α) :
+    ((lookup "conv" [C, R, C2, R2]).out (c * R + r)).eval o env
+      = if c < C2 ∧ r < R2 then env (c * R2 + r) else if c = r then o.lit 1 1 else o.lit 0 1 := by
+  have hj : c * R + r < f_conv.nOut [C, R, C2, R2] := by
+    show c * R + r < C * R
+    calc c * R + r < c * R + R := by omega
+      _ = (c + 1) * R := by ring
+      _ ≤ C * R := Nat.mul_le_mul_right R hc
+  have := Family.syn_sound o conv_ok rfl (ks := [C, R, C2, R2]) hs hj env
+  rw [show f_conv.name = "conv" from rfl] at this
+  rw [this]
+  show (conv C R C2 R2 (c * R + r)).eval o env = _
+  have h1 : (c * R + r) % R = r := by rw [Nat.mul_comm, Nat.mul_add_mod]; exact Nat.mod_eq_of_lt hr
+  have h2 : (c * R + r) / R = c := by
+    rw [Nat.mul_comm, Nat.mul_add_div (by omega), Nat.div_eq_of_lt hr]; rfl
+  simp only [conv, h1, h2]
+  split
+  · rfl
+  · split <;> rfl
+
+/-- **the whole polynomial part of C02 at once**: every output component of every traced unit of a
+`poly` family equals its textbook definition in every commutative ring, for every input. -/
+theorem poly_families_correct (f : Family) (hf : f ∈ families) (hk : f.kind = .poly)
+    (ks : List Nat) (hks : ks ∈ f.keys) (j : Nat) (hj : j < f.nOut ks) (env : Nat → R') :
+    ((lookup f.name ks).out j).eval (ringOps R') env = (f.spec ks j).eval (ringOps R') env :=
+  Family.poly_sound ringOps_ringLike (all_ok f hf) hk hks hj env
+
+/-- the same for the `syn` families (access, assignment, conversions, constructors), in every semantics -/
+theorem syn_families_correct {α : Type} (o : Ops α) (f : Family) (hf : f ∈ families) (hk : f.kind = .syn)
+    (ks : List Nat) (hks : ks ∈ f.keys) (j : Nat) (hj : j < f.nOut ks) (env : Nat → α) :
+    ((lookup f.name ks).out j).eval o env = (f.spec ks j).eval o env :=
+  Family.syn_sound o (all_ok f hf) hk hks hj env
+
+/-- and for division by / of a scalar, in every field of characteristic zero, whenever the divisors
+the code uses are non-zero -/
+theorem frac_families_correct {K : Type} [Field K] [CharZero K] (f : Family) (hf : f ∈ families)
+    (hk : f.kind = .frac) (ks : List Nat) (hks : ks ∈ f.keys) (j : Nat) (hj : j < f.nOut ks)
+    (env : Nat → K)
+    (hall : ∀ a ∈ f.allowed ks, a.divOK (fieldOps K) env ∧ a.eval (fieldOps K) env ≠ 0) :
+    ((lookup f.name ks).out j).eval (fieldOps K) env = (f.spec ks j).eval (fieldOps K) env :=
+  Family.frac_sound fieldOps_fieldLike (all_ok f hf) hk hks hj env hall
+
+/-- non-vacuity: the tables are not empty and the units are not the default unit -/
+example : (lookup "mul" [4, 3, 4]).nIn = 28 ∧ (lookup "mul" [4, 3, 4]).outs.length = 12 ∧
+    f_mul.keys.length = 27 ∧ f_conv.keys.length = 81 := by decide +kernel
 
 end Glm.Props.C02
